@@ -11,6 +11,7 @@ import (
 
 	"github.com/prometheus/prometheus/model/labels"
 
+	"github.com/prometheus/prometheus/storage"
 	"github.com/prometheus/prometheus/tsdb"
 	"github.com/prometheus/prometheus/tsdb/chunkenc"
 	"github.com/prometheus/prometheus/tsdb/chunks"
@@ -30,22 +31,171 @@ func (b realBytes) Sub(start, end int) index.ByteSlice { return b[start:end] }
 
 // readBlock returns sample-level and chunk-level content of one block directory (any error is returned).
 func readBlock(dir string) (s, c qresult, err error) {
+	s, c, serr, cerr := readBlockPaths(dir)
+	if serr != nil {
+		return nil, nil, serr
+	}
+	return s, c, cerr
+}
+
+// readBlockPaths reads a block through the sample querier and through the chunk querier and reports the outcome of
+// each path on its own: a path that returns no error has returned data, whatever the other path says.
+func readBlockPaths(dir string) (s, c qresult, serr, cerr error) {
 	defer func() {
 		if r := recover(); r != nil {
-			err = fmt.Errorf("panic while reading the block: %v", r)
+			serr = fmt.Errorf("panic while reading the block: %v", r)
+			cerr = serr
 		}
 	}()
 	b, err := tsdb.OpenBlock(nil, dir, nil, nil)
 	if err != nil {
-		return nil, nil, err
+		return nil, nil, err, err
 	}
 	defer b.Close()
-	s, err = querySamples(blockSource{b}, math.MinInt64, math.MaxInt64, allMatcher)
+	s, serr = querySamples(blockSource{b}, math.MinInt64, math.MaxInt64, allMatcher)
+	c, cerr = queryChunks(blockSource{b}, math.MinInt64, math.MaxInt64, allMatcher)
+	return s, c, serr, cerr
+}
+
+// indexRoundTrip reads the index of a block back against itself: the series entries (reached through the all-postings
+// list) are what was written; label names, the sorted values of every name, the postings of every name/value pair, the
+// postings of "every value of a name" must be exactly what those series imply, and the sorted symbol table must hold
+// every string they use. "" = consistent.
+func indexRoundTrip(dir string) (verdict string, nseries int) {
+	defer func() {
+		if r := recover(); r != nil {
+			verdict = fmt.Sprintf("panic while reading the index: %v", r)
+		}
+	}()
+	ctx := context.Background()
+	b, err := tsdb.OpenBlock(nil, dir, nil, nil)
 	if err != nil {
-		return nil, nil, err
+		return "open: " + err.Error(), 0
 	}
-	c, err = queryChunks(blockSource{b}, math.MinInt64, math.MaxInt64, allMatcher)
-	return s, c, err
+	defer b.Close()
+	ir, err := b.Index()
+	if err != nil {
+		return "index: " + err.Error(), 0
+	}
+	defer ir.Close()
+	k, v := index.AllPostingsKey()
+	all, err := ir.Postings(ctx, k, v)
+	if err != nil {
+		return "all postings: " + err.Error(), 0
+	}
+	byPair := map[string]map[string][]storage.SeriesRef{}
+	var bldr labels.ScratchBuilder
+	var chks []chunks.Meta
+	prev := labels.EmptyLabels()
+	for all.Next() {
+		ref := all.At()
+		if err := ir.Series(ref, &bldr, &chks); err != nil {
+			return fmt.Sprintf("series %d: %v", ref, err), nseries
+		}
+		l := bldr.Labels()
+		if nseries > 0 && labels.Compare(prev, l) >= 0 {
+			return fmt.Sprintf("series entries are not in label order: %s before %s", prev, l), nseries
+		}
+		prev = l.Copy()
+		nseries++
+		l.Range(func(x labels.Label) {
+			if byPair[x.Name] == nil {
+				byPair[x.Name] = map[string][]storage.SeriesRef{}
+			}
+			byPair[x.Name][x.Value] = append(byPair[x.Name][x.Value], ref)
+		})
+	}
+	if all.Err() != nil {
+		return "all postings: " + all.Err().Error(), nseries
+	}
+	drain := func(p index.Postings) ([]storage.SeriesRef, error) {
+		var out []storage.SeriesRef
+		for p.Next() {
+			out = append(out, p.At())
+		}
+		return out, p.Err()
+	}
+	same := func(a, b []storage.SeriesRef) bool {
+		if len(a) != len(b) {
+			return false
+		}
+		for i := range a {
+			if a[i] != b[i] {
+				return false
+			}
+		}
+		return true
+	}
+	var names []string
+	for n := range byPair {
+		names = append(names, n)
+	}
+	sort.Strings(names)
+	gotNames, err := ir.LabelNames(ctx)
+	if err != nil {
+		return "label names: " + err.Error(), nseries
+	}
+	if strings.Join(gotNames, "\x00") != strings.Join(names, "\x00") {
+		return fmt.Sprintf("label names read back as %v, the series entries hold %v", gotNames, names), nseries
+	}
+	syms := map[string]bool{}
+	for _, n := range names {
+		syms[n] = true
+		var vals []string
+		var union []storage.SeriesRef
+		for val, refs := range byPair[n] {
+			vals = append(vals, val)
+			union = append(union, refs...)
+			syms[val] = true
+		}
+		sort.Strings(vals)
+		sort.Slice(union, func(i, j int) bool { return union[i] < union[j] })
+		got, err := ir.SortedLabelValues(ctx, n, nil)
+		if err != nil {
+			return fmt.Sprintf("label values of %s: %v", n, err), nseries
+		}
+		if strings.Join(got, "\x00") != strings.Join(vals, "\x00") {
+			return fmt.Sprintf("label values of %q read back as %v, the series entries hold %v", n, got, vals), nseries
+		}
+		for _, val := range vals {
+			p, err := ir.Postings(ctx, n, val)
+			if err != nil {
+				return fmt.Sprintf("postings of %s=%q: %v", n, val, err), nseries
+			}
+			refs, err := drain(p)
+			if err != nil {
+				return fmt.Sprintf("postings of %s=%q: %v", n, val, err), nseries
+			}
+			if !same(refs, byPair[n][val]) {
+				return fmt.Sprintf("postings of %s=%q read back as %v, the series entries with that label are %v", n, val, refs, byPair[n][val]), nseries
+			}
+		}
+		refs, err := drain(ir.PostingsForAllLabelValues(ctx, n))
+		if err != nil {
+			return fmt.Sprintf("postings of every value of %s: %v", n, err), nseries
+		}
+		sort.Slice(refs, func(i, j int) bool { return refs[i] < refs[j] })
+		if !same(refs, union) {
+			return fmt.Sprintf("postings of every value of %q read back as %v, the series entries with that label are %v", n, refs, union), nseries
+		}
+	}
+	si := ir.Symbols()
+	prevSym, first := "", true
+	for si.Next() {
+		x := si.At()
+		if !first && x <= prevSym {
+			return fmt.Sprintf("symbols out of order: %q after %q", x, prevSym), nseries
+		}
+		prevSym, first = x, false
+		delete(syms, x) // the table may hold more than the series use ("" always; symbols of series dropped while writing)
+	}
+	if si.Err() != nil {
+		return "symbols: " + si.Err().Error(), nseries
+	}
+	for x := range syms {
+		return fmt.Sprintf("symbol %q of a series entry is not in the symbol table", x), nseries
+	}
+	return "", nseries
 }
 
 // blockDamageCheck is the C24 oracle, run on the blocks a clean shutdown left behind: one byte of a chunk record or of
@@ -73,6 +223,16 @@ func (e *exec) blockDamageCheck(where string) {
 		return
 	}
 	e.res.Count("blocks_read_back", 1)
+	v, n := indexRoundTrip(src)
+	e.res.Evals++
+	e.res.Count("block_index_round_trips", 1)
+	if n%32 == 1 && n > 1 {
+		e.res.Count("block_index_round_trips_with_32k_plus_1_series", 1)
+	}
+	if v != "" {
+		e.fail("block-roundtrip", "index-reads-back-differently", "%s: block %s (%d series): %s", where, bn, n, v)
+		return
+	}
 	nDamage := 6
 	for i := 0; i < nDamage && !e.failed; i++ {
 		dst := e.scratch("blk")
@@ -132,12 +292,21 @@ func (e *exec) blockDamageCheck(where string) {
 			kind = "series-entry"
 		}
 		e.res.Count("fault:block-byte-altered:"+kind, 1)
-		gotS, gotC, rerr := readBlock(dst)
+		gotS, gotC, serr, cerr := readBlockPaths(dst)
 		os.RemoveAll(dst)
 		e.res.Evals++
-		if rerr != nil {
+		if serr != nil && cerr != nil {
 			e.res.Count("block_damage_reported", 1)
 			continue
+		}
+		if serr != nil || cerr != nil {
+			e.res.Count("block_damage_reported_by_one_read_path", 1)
+		}
+		if serr != nil {
+			gotS = wantS
+		}
+		if cerr != nil {
+			gotC = wantC
 		}
 		if d := diffResults(wantS, gotS); d != "" {
 			e.fail("block-damage", "altered-"+kind+"-returned-as-data", "%s: block %s with byte %d of %s changed from %#x to %#x is read without error but returns other data: %s", where, bn, pos, kind, old, b[pos], d)
@@ -222,6 +391,13 @@ func (e *exec) logDamageCheck(img, where string) {
 		}
 		classes := []string{"wal", "wbl", "chunks_head", "checkpoint"}
 		class := classes[e.rng.Intn(len(classes))]
+		// C22 runs use this sweep for their first clause only (a sample is only ever returned under the labels it was
+		// appended with, also when the tail of a log is lost and refs are handed out again afterwards): the fault is a
+		// cut of the newest WAL or WBL segment, and only the attribution checks apply
+		refOnly := e.prop == "C22"
+		if refOnly {
+			class = []string{"wal", "wal", "wbl"}[e.rng.Intn(3)]
+		}
 		var target string
 		switch class {
 		case "wal":
@@ -255,7 +431,10 @@ func (e *exec) logDamageCheck(img, where string) {
 				goto damaged
 			}
 		}
-		if e.rng.Chance(0.5) {
+		if refOnly && e.rng.Chance(0.35) && used > 48 {
+			pos = e.rng.Intn(48) // the label records of the series created since the last restart are the first to go
+		}
+		if refOnly || e.rng.Chance(0.5) {
 			b = b[:pos]
 		} else {
 			how = "alter"
@@ -312,14 +491,14 @@ func (e *exec) logDamageCheck(img, where string) {
 			return
 		}
 		// (b) block data is untouched by log damage
-		if d := e.subsetModuloCandidates(inBlocks, got); d != "" {
+		if d := e.subsetModuloCandidates(inBlocks, got); d != "" && !refOnly {
 			db.Close()
 			os.RemoveAll(dir)
 			e.fail("damage-content", "damaged-"+class+"-loses-block-data", "%s: %s", desc, d)
 			return
 		}
 		// (c) with WAL and checkpoint intact every in-order head sample is still in the WAL
-		if class == "wbl" || class == "chunks_head" {
+		if (class == "wbl" || class == "chunks_head") && !refOnly {
 			must := qresult{}
 			for k, v := range full {
 				for _, s := range v {
@@ -412,6 +591,9 @@ func (e *exec) logDamageCheck(img, where string) {
 				return
 			}
 			continue
+		}
+		if !kept && refOnly {
+			continue // durability of the write after a repair is C04's clause
 		}
 		if !kept {
 			e.fail("damage-writable", "write-after-repair-lost", "%s: the sample written after the repair is gone after the next restart", desc)
